@@ -376,6 +376,68 @@ func c18plaintext(p *c18pki, rep *common.Reporter) int {
 			cp.Stop()
 		}
 	}
+	// security settings present but the transport spelled "tcp4"/"tcp6"/"udp4"/"udp6": whatever the
+	// library makes of such a configuration, it must not talk IPFIX in clear
+	for _, proto := range []string{"tcp4", "tcp6", "udp4", "udp6"} {
+		n++
+		host := "127.0.0.1"
+		if proto[3] == '6' {
+			host = "[::1]"
+		}
+		clear := make(chan bool, 4)
+		var addr string
+		var closer func()
+		if proto[:3] == "tcp" {
+			ln, err := net.Listen("tcp", host+":0")
+			if err != nil {
+				continue
+			}
+			addr, closer = ln.Addr().String(), func() { ln.Close() }
+			go func() {
+				c, err := ln.Accept()
+				if err != nil {
+					return
+				}
+				c.SetDeadline(time.Now().Add(500 * time.Millisecond))
+				b := make([]byte, 64)
+				k, _ := c.Read(b)
+				clear <- k >= 2 && b[0] == 0 && b[1] == 10
+				c.Close()
+			}()
+		} else {
+			ua, _ := net.ResolveUDPAddr("udp", host+":0")
+			u, err := net.ListenUDP("udp", ua)
+			if err != nil {
+				continue
+			}
+			addr, closer = u.LocalAddr().String(), func() { u.Close() }
+			go func() {
+				u.SetReadDeadline(time.Now().Add(500 * time.Millisecond))
+				b := make([]byte, 2048)
+				k, _, _ := u.ReadFromUDP(b)
+				clear <- k >= 2 && b[0] == 0 && b[1] == 10
+			}()
+		}
+		func() {
+			defer func() { recover() }() // a nil connection inside the library is not this property's business
+			ep, err := exporter.InitExportingProcess(exporter.ExporterInput{CollectorAddress: addr, CollectorProtocol: proto, ObservationDomainID: 9,
+				TLSClientConfig: &exporter.ExporterTLSClientConfig{ServerName: "localhost", CAData: p.ca.PEM}})
+			if err != nil || ep == nil {
+				return
+			}
+			set := e2eCase{elems: []e2eElem{{c15ie("sourceTransportPort", 0)}}}.tmplSet(ep.NewTemplateID())
+			ep.SendSet(set)
+			ep.CloseConnToCollector()
+		}()
+		select {
+		case c := <-clear:
+			if c {
+				rep.Report("plaintext", "plaintext-sent", fmt.Sprintf("an exporter with TLS settings and CollectorProtocol=%q sent an IPFIX message in clear to %s", proto, addr), map[string]string{"cell": "tls settings, protocol " + proto}, nil)
+			}
+		case <-time.After(700 * time.Millisecond):
+		}
+		closer()
+	}
 	// TLS exporter -> plaintext tcp listener; DTLS exporter -> plaintext udp socket
 	n++
 	ln, _ := net.Listen("tcp", "127.0.0.1:0")
